@@ -198,7 +198,12 @@ func (bc *boundCtx) bounded1(v ssa.Value, at ssa.Instruction, d int) bool {
 				}
 				return n > 0
 			}
-			return true // memory that already exists (fields, elements): validated where it was filled
+			if _, isElem := x.X.(*ssa.IndexAddr); isElem {
+				// element of a (just decoded) column: a wire value unless validated on the path
+				bc.why[v] = "an element of a decoded column (wire-derived)"
+				return false
+			}
+			return true // struct fields (Block.Rows, configuration): validated where they are set
 		}
 		if x.Op == token.SUB {
 			return bc.bounded(x.X, at, d+1)
